@@ -328,6 +328,35 @@ pub fn run(tier: Tier, seed: u64) -> i32 {
                     }
                 }
             }
+            // the same differential over the LENGTH of the credential identifier, context and identities (honest request):
+            // a limit enforced on one of the two paths only tells the two kinds of user apart
+            {
+                let lens = [255usize, 256, 1000, 65535, 65536, 65537, 100_000];
+                let class = |r: Result<(Vec<u8>, Vec<u8>), E>| match r {
+                    Ok((k2, _)) => format!("Ok(len {})", k2.len()),
+                    Err(e) => format!("Err({:?})", e),
+                };
+                for which in ["cid", "ctx", "idu", "ids"] {
+                    for l in lens {
+                        let v = vec![0x63u8; l];
+                        cx.begin_case(json!({"long_parameter": which, "length": l}));
+                        cx.edges += 2;
+                        let (cid, ctx, idu, ids): (&[u8], Option<&[u8]>, Option<&[u8]>, Option<&[u8]>) = match which {
+                            "cid" => (&v, o(&w.p.ctx), o(&w.p.idu), o(&w.p.ids)),
+                            "ctx" => (&w.p.cid, Some(&v), o(&w.p.idu), o(&w.p.ids)),
+                            "idu" => (&w.p.cid, o(&w.p.ctx), Some(&v), o(&w.p.ids)),
+                            _ => (&w.p.cid, o(&w.p.ctx), o(&w.p.idu), Some(&v)),
+                        };
+                        let with = class(api.slogin_start(&mut Tape::seeded(seed, "c08/long"), &Blob::n(&w.setup), Some(&Blob::n(&w.file)), &Blob::n(&w.reqs[0].0), cid, ctx, idu, ids));
+                        let without = class(api.slogin_start(&mut Tape::seeded(seed, "c08/long"), &Blob::n(&w.setup), None, &Blob::n(&w.reqs[0].0), cid, ctx, idu, ids));
+                        if with != without {
+                            cx.violate(&format!("registration-oracle/long-{}", which), format!("the server reacts differently to a {}-byte {} depending on whether a password file exists: {} vs {}", l, which, with, without));
+                        } else {
+                            cx.outcome("long-parameter-same-reaction");
+                        }
+                    }
+                }
+            }
             let st = explore::bfs(&w, cx, 1_000_000);
             models.lock().unwrap().push(json!({"suite": api.name(), "setting": s, "depth": w.max_depth, "states": st.states, "edges": st.edges, "terminals": st.terminals}));
             cx.sample(json!({"suite": api.name(), "setting": w.p.describe(), "depth": w.max_depth, "actions": ["fake(cid in {nobody, alice, empty}, request in 2)", "real_login"]}));
